@@ -190,12 +190,9 @@ func newMachine(c *Ctx, name string) *Machine {
 		m.why = "expected exactly one top-level for loop"
 		return m
 	}
-	if as, ok := m.loop.Init.(*ast.AssignStmt); ok && len(as.Lhs) == 1 {
-		if id, ok := as.Lhs[0].(*ast.Ident); ok {
-			m.idxV = info.Defs[id]
-		}
-	}
-	if as, ok := m.loop.Post.(*ast.AssignStmt); ok && as.Tok == token.ADD_ASSIGN && len(as.Lhs) == 1 && m.obj(as.Lhs[0]) == m.idxV {
+	// the position variable and the decoded size: the post statement is `i += size`
+	if as, ok := m.loop.Post.(*ast.AssignStmt); ok && as.Tok == token.ADD_ASSIGN && len(as.Lhs) == 1 && len(as.Rhs) == 1 {
+		m.idxV = m.obj(as.Lhs[0])
 		m.sizeV = m.obj(as.Rhs[0])
 	}
 	ast.Inspect(m.fn.Body, func(n ast.Node) bool {
@@ -292,10 +289,29 @@ func isStateType(c *Ctx, t types.Type) bool {
 func (m *Machine) initialState() string {
 	name := ""
 	ast.Inspect(m.fn.Body, func(n ast.Node) bool {
-		as, ok := n.(*ast.AssignStmt)
-		if ok && as.Tok == token.DEFINE && len(as.Lhs) == 1 && len(as.Rhs) == 1 && m.obj(as.Lhs[0]) == m.stateV && name == "" {
-			if o := m.obj(as.Rhs[0]); o != nil {
-				name = o.Name()
+		if name != "" {
+			return false
+		}
+		switch x := n.(type) {
+		case *ast.AssignStmt:
+			if x.Tok == token.DEFINE && len(x.Lhs) == len(x.Rhs) {
+				for i := range x.Lhs {
+					if m.obj(x.Lhs[i]) == m.stateV {
+						if o := m.obj(x.Rhs[i]); o != nil {
+							name = o.Name()
+						}
+					}
+				}
+			}
+		case *ast.ValueSpec:
+			if len(x.Names) == len(x.Values) {
+				for i := range x.Names {
+					if m.c.Info.Defs[x.Names[i]] == m.stateV {
+						if o := m.obj(x.Values[i]); o != nil {
+							name = o.Name()
+						}
+					}
+				}
 			}
 		}
 		return true
